@@ -85,7 +85,8 @@ def mkey(e, why):
     if e["ev"] == "helix":
         return "helix:%s:tol=%d:starts=%d:%s%s" % (e["name"], e["tolu"], e["starts"], "rod%d:" % e["long"] if e.get("long") else "", why)
     if e["ev"] in ("mate", "boltnut"):
-        return "%s:%s:tole=%d:toli=%d:%s" % (e["ev"], e["name"], e["tole"], e["toli"], why)
+        return "%s:%s%s:tole=%d:toli=%d:%s" % (e["ev"], e["name"], "/" + e["style"] if e.get("style", "hex") != "hex" else "",
+                                                e["tole"], e["toli"], why)
     return "%s:%s:%s" % (e["ev"], e.get("name", "?"), why)
 
 
